@@ -1,6 +1,7 @@
 package props
 
 import (
+	"time"
 	"strings"
 	"fmt"
 
@@ -25,8 +26,53 @@ func chunkObs(f func() (string, error)) string {
 }
 
 // C11: GetChunk / RawMessage.Chunk against the option map the specification parse finds.
+type keptChunk struct{ got, snap string }
+
+// sweepOne: a message of the given mode whose content before the option map is about L bytes, with a chunk.
+func sweepOne(c *core.Ctx, mode string, L int, kept *[]keptChunk) {
+	var enc []byte
+	id := fmt.Sprintf("sweep-%s-%d", mode, L)
+	opts := &protocol.MessageOptions{Chunk: id}
+	if mode == "message" {
+		m := &protocol.Message{Tag: "t", Timestamp: 5, Record: map[string]interface{}{"a": strings.Repeat("x", L/2), "b": strings.Repeat("y", L-L/2)}, Options: opts}
+		enc, _ = m.MarshalMsg(nil)
+	} else {
+		var el protocol.EntryList
+		for left := L; left > 0; left -= 100 {
+			k := left
+			if k > 100 {
+				k = 100
+			}
+			el = append(el, protocol.EntryExt{Timestamp: protocol.EventTime{Time: time.Unix(1, 0)}, Record: map[string]interface{}{"k": strings.Repeat("z", k)}})
+		}
+		m := &protocol.ForwardMessage{Tag: "t", Entries: el, Options: opts}
+		enc, _ = m.MarshalMsg(nil)
+	}
+	obs := chunkObs(func() (string, error) {
+		s, err := protocol.GetChunk(enc)
+		if err == nil {
+			*kept = append(*kept, keptChunk{s, strings.Clone(s)})
+		}
+		return s, err
+	})
+	c.Eval()
+	c.Hist("size sweep " + mode + " -> " + obs[:2])
+	if obs != "ok("+hx([]byte(id))+")" {
+		c.Violation("judge-go", "c11-sweep", fmt.Sprintf("GetChunk on a %s message of %d bytes with chunk %q: %s", mode, len(enc), id, trunc(obs, 80)), map[string]interface{}{"mode": mode, "bytes": len(enc), "content": L})
+	}
+}
+
 func C11(c *core.Ctx) {
 	r := c.Rng
+	var kept []keptChunk
+	defer func() {
+		for _, k := range kept {
+			if k.got != k.snap {
+				c.Violation("judge-go", "c11-result-changed", fmt.Sprintf("a chunk id returned by GetChunk changed from %q to %q through later calls", k.snap, k.got), nil)
+				return
+			}
+		}
+	}()
 	// corpus: values encoded with an ext32 header (0xc9) before the chunk key.  msgp's stream
 	// Skip reports such a header as truncated (known finding D18): unknown option value,
 	// value inside the record, ext32-encoded EventTime.
@@ -48,6 +94,18 @@ func C11(c *core.Ctx) {
 		}
 		c.Corr("c11-getchunk", "get_chunk", []string{hx(enc)}, obs)
 		c.Judge("c11-ext32-skip", "judge_chunk", []string{hx(enc), obs}, "GetChunk on a well-formed message holding an ext32-encoded value before the chunk key")
+	}
+	// every total size across several multiples of the stream reader's buffer (the walker reads through a 2 KiB
+	// buffered reader: whatever it decides must not depend on where in the buffer the option map happens to lie)
+	for _, mode := range []string{"message", "forward"} {
+		for L := 1980; L <= 2120; L++ {
+			sweepOne(c, mode, L, &kept)
+		}
+		for _, base := range []int{4040, 6090, 8140} {
+			for L := base; L <= base+c.N(70, 140); L++ {
+				sweepOne(c, mode, L, &kept)
+			}
+		}
 	}
 	n := c.N(400, 20000)
 	for i := 0; i < n; i++ {
@@ -114,7 +172,13 @@ func C11(c *core.Ctx) {
 		} else {
 			enc = gen.AltMsg(r, m, true, extra, extraVals)
 		}
-		obs := chunkObs(func() (string, error) { return protocol.GetChunk(enc) })
+		obs := chunkObs(func() (string, error) {
+			s, err := protocol.GetChunk(enc)
+			if err == nil {
+				kept = append(kept, keptChunk{s, strings.Clone(s)})
+			}
+			return s, err
+		})
 		obsRaw := chunkObs(func() (string, error) { return protocol.RawMessage(enc).Chunk() })
 		c.Eval()
 		hasChunk := !m.Opts.Absent && len(m.Opts.Chunk) > 0
